@@ -411,6 +411,52 @@ def run_c20(ctx):
                      'auto-detection needs two packets: single-packet streams run with explicit size only'])
 
 
+def reader_models(ctx):
+    for cfg in ('Reader_ideal.cfg', 'Reader_ideal_short.cfg', 'Reader_explicit.cfg'):
+        model_check(ctx, 'Reader', cfg, workers=4)
+
+
+def run_c08(ctx):
+    build_harness(ctx)
+    quick = ctx.tier == 'quick'
+    reader_models(ctx)
+    clean = demux_scenarios(ctx, ['Demux_gen_psi_quick.cfg', 'Demux_gen_pes_quick.cfg'], 'cg', sample=6 if quick else 120)
+    rnd = harness_gen(ctx, 'demux', 6 if quick else 120, ctx.seed, 3)
+    scs = []
+    for s in clean + rnd:
+        v = dict(s)
+        v['kind'] = 'reader'
+        scs.append(v)
+    return pipeline(
+        ctx, 'Mon_C08', 'reader', scs, opt='' if quick else 'deep',
+        rule='scenario = stream; per scenario a fixed family of configurations: reader kind {bytes.Reader, bufio, plain, short-read (seekable / not / under '
+             'bufio)} x schedule {full, fixed chunk sizes (13 quick / 1..400 thorough), a boundary at sampled/every offset of the first 400 bytes, random} '
+             'x {explicit, auto} x frame size {188..192, 204, 250}; each through NextPacket and NextData, compared with the reference run',
+        assumptions=['auto-detection needs two packets and no 0x47 among bytes 188..size-1 of the first frame (configurations outside are not run)',
+                     'auto-detection on a reader that is neither seekable nor a bufio.Reader loses packets by documented design: such runs are only compared with each other'])
+
+
+def run_c03(ctx):
+    build_harness(ctx)
+    quick = ctx.tier == 'quick'
+    reader_models(ctx)
+    clean = demux_scenarios(ctx, ['Demux_gen_psi_quick.cfg', 'Demux_gen_pes_quick.cfg'], 'bg', sample=16 if quick else 400)
+    rnd = harness_gen(ctx, 'demux', 14 if quick else 300, ctx.seed, 2)
+    scs = []
+    for s in clean + rnd:
+        v = dict(s)
+        v['kind'] = 'robust'
+        scs.append(v)
+    return pipeline(
+        ctx, 'Mon_C03', 'robust', scs, opt='' if quick else 'deep',
+        rule='scenario = well-formed stream; per scenario the harness derives inputs: the stream itself, empty input, every length-like field the layouts '
+             'declare (pointer_field, section_length, program_info/ES_info/descriptor loop lengths, descriptor_length, PES_packet_length, '
+             'PES_header_data_length, adaptation_field_length) set to {0, 1, true-1, true+1, max}, inconsistent adaptation flags, truncation at every '
+             'offset of the last packet and sampled offsets, random byte corruption, garbage with/without sync bytes; each input x configurations '
+             '{auto,188,192,204,189} x {bytes.Reader, bufio, plain, 1-byte reads} x {NextPacket, NextData} (5 sampled per malformed input in quick)',
+        assumptions=['bound on calls before ErrNoMorePackets: |input| + 2', 'a call that does not return within 20 s is a hang'])
+
+
 # ------------------------------------------------------------------ C18: I/O failures surfaced
 
 def run_c18(ctx):
@@ -437,4 +483,6 @@ PROPS = {
     'C07': run_c07,
     'C19': run_c19,
     'C20': run_c20,
+    'C08': run_c08,
+    'C03': run_c03,
 }
